@@ -129,6 +129,18 @@ Nested1 ==
 
 \* every vocabulary type name on the struct it maps to, top level and embedded (by pointer and by value)
 NamedV(n, k) == With(With(BaseV(GoType(n), k), "type", Str(n)), "name", Nlv(<<LR(NilTag, "named " \o n)>>))
+\* a struct that carries the type name of a larger struct it is a prefix of: what ObjectNew(PlaceType), IntransitiveActivityNew(id, QuestionType)
+\* and (*Object).UnmarshalJSON of a Person document build.  Both codecs must store it; the package-level decoders return the larger struct.
+CrossPairs == {<<"Object", n>> : n \in {"Place", "Profile", "Relationship", "Tombstone", "Person", "Create", "Arrive", "Question",
+                                       "Collection", "OrderedCollection", "CollectionPage", "OrderedCollectionPage"}}
+              \cup {<<"IntransitiveActivity", "Question">>, <<"IntransitiveActivity", "Create">>, <<"Collection", "CollectionPage">>,
+                    <<"OrderedCollection", "OrderedCollectionPage">>}
+CrossV(g, n, k) == With(With(BaseV(g, k), "type", Str(n)), "name", Nlv(<<LR(NilTag, g \o " named " \o n)>>))
+CrossFamily ==
+  UNION {{ Case("cross", c[1], "type", "as:" \o c[2], CrossV(c[1], c[2], 16)),
+           Case("cross", "Activity", "object", "in-object:" \o c[1] \o "-as:" \o c[2], With(BaseV("Activity", 2), "object", CrossV(c[1], c[2], 17))),
+           Case("cross", "Object", "tag", "in-list:" \o c[1] \o "-as:" \o c[2], With(BaseV("Object", 2), "tag", ListOf(<<CrossV(c[1], c[2], 18), I1>>))) }
+         : c \in CrossPairs}
 AllTypeNames ==
   UNION {{ Case("typename", GoType(n), "type", n, NamedV(n, 12)),
            Case("typename", "Object", "attachment", "embedded:" \o n, With(BaseV("Object", 2), "attachment", NamedV(n, 13))),
